@@ -1,5 +1,6 @@
 import NgoVerif.Sem.Program
 import NgoVerif.Sem.Indep
+import NgoVerif.Sem.Coincidence
 /-!
 # A concrete head semantics (Abstract-Gringo reading) and its independence / persistence properties
 
@@ -175,6 +176,106 @@ theorem stdHeadSat_indep (n : Sig) (G : String → Prop) (h : Head) (hav : headA
     have hT : bTuples P G e T T (haggTuples elems) = bTuples P G e T' T' (haggTuples elems) := by
       funext k; exact propext (bTuples_indep P n G _ (bElemsAvoid_hagg n elems hav) e T T T' T' aT aT k)
     rw [hH, hT, choiceOk_indep P n G _ hav' e H T H' T' aH aT]
+  | theory t => simp only [stdHeadSat]
+
+
+/-! ### coincidence: a head depends only on the values of the variables that occur in it -/
+
+theorem headLitSat_congr (G : String → Prop) (H T : Interp) (l : Sign × Atom) (e1 e2 : Env)
+    (h : ∀ v ∈ litVars l, e1 v = e2 v) : headLitSat P G e1 H T l ↔ headLitSat P G e2 H T l := by
+  obtain ⟨s, a⟩ := l
+  cases a with
+  | sym t =>
+    have := groundAtom_congr P e1 e2 t (by simpa [litVars, litTerms, Atom.terms] using h)
+    cases s <;> simp only [headLitSat, this]
+  | cmp t gs => simp only [headLitSat]; exact litSat_congr P G H T _ e1 e2 h
+  | bool b => simp only [headLitSat]; exact litSat_congr P G H T _ e1 e2 h
+  | bagg l c lg f es rg => simp only [headLitSat]; exact litSat_congr P G H T _ e1 e2 h
+  | agg lg es rg => simp only [headLitSat]; exact litSat_congr P G H T _ e1 e2 h
+  | theory t => simp only [headLitSat]
+
+theorem choiceOk_congr_aux (G : String → Prop) (H T : Interp) (elems : List CondLit) (ea eb : Env)
+    (hab : ∀ v ∈ (elems.flatMap condLitTerms).flatMap Term.vars, ea v = eb v)
+    (hs : choiceOk P G ea H T elems) : choiceOk P G eb H T elems := by
+  intro c hc e' ha hcond
+  let vs := (condLitTerms c).flatMap Term.vars
+  have hsub : ∀ v ∈ vs, v ∈ (elems.flatMap condLitTerms).flatMap Term.vars := by
+    intro v hv
+    obtain ⟨t, ht, hvt⟩ := List.mem_flatMap.mp hv
+    exact List.mem_flatMap.mpr ⟨t, List.mem_flatMap.mpr ⟨c, hc, ht⟩, hvt⟩
+  have hba : ∀ v ∈ vs, eb v = ea v := fun v hv => (hab v (hsub v hv)).symm
+  have hl : ∀ W W', litSat P G e' W W' c.1 ↔ litSat P G (patch vs e' ea) W W' c.1 := fun W W' =>
+    litSat_congr P G W W' c.1 e' _ (fun v hv => patch_eq vs e' ea v (by
+      simp only [vs, condLitTerms, List.flatMap_append, List.mem_append]; exact Or.inl (by simpa [litVars] using hv)))
+  have hcc : ∀ W W', litsSat P G e' W W' c.2 ↔ litsSat P G (patch vs e' ea) W W' c.2 := fun W W' =>
+    litsSat_congr P G W W' c.2 e' _ (fun v hv => patch_eq vs e' ea v (by
+      simp only [vs, condLitTerms, List.flatMap_append, List.mem_append]; exact Or.inr hv))
+  rcases hs c hc (patch vs e' ea) (patch_agree G vs eb ea e' hba ha) ((hcc H T).mp hcond) with h1 | h1
+  · exact Or.inl ((hl H T).mpr h1)
+  · exact Or.inr fun h2 => h1 ((hl T T).mp h2)
+
+theorem choiceOk_congr (G : String → Prop) (H T : Interp) (elems : List CondLit) (e1 e2 : Env)
+    (h : ∀ v ∈ (elems.flatMap condLitTerms).flatMap Term.vars, e1 v = e2 v) :
+    choiceOk P G e1 H T elems ↔ choiceOk P G e2 H T elems :=
+  ⟨choiceOk_congr_aux P G H T elems e1 e2 h, choiceOk_congr_aux P G H T elems e2 e1 (fun v hv => (h v hv).symm)⟩
+
+theorem cElemsTerms_eq : ∀ (es : List CondLit), cElemsTerms es = es.flatMap condLitTerms
+  | [] => by simp [cElemsTerms]
+  | (l, c) :: es => by simp [cElemsTerms, condLitTerms, cElemsTerms_eq es]
+
+theorem haggTuples_terms : ∀ (es : List (List Term × CondLit)),
+    bElemsTerms (haggTuples es) = es.flatMap (fun e => e.1 ++ condLitTerms e.2)
+  | [] => by simp [haggTuples, bElemsTerms]
+  | (ts, (l, c)) :: es => by
+    have ih := haggTuples_terms es
+    simp only [haggTuples] at ih
+    simp [haggTuples, bElemsTerms, litsTerms, condLitTerms, ih]
+
+/-- **coincidence for heads** -/
+theorem stdHeadSat_congr (G : String → Prop) (H T : Interp) (h : Head) (e1 e2 : Env)
+    (hv : ∀ v ∈ h.vars, e1 v = e2 v) : stdHeadSat P G e1 H T h ↔ stdHeadSat P G e2 H T h := by
+  cases h with
+  | lit l => simp only [stdHeadSat]; exact headLitSat_congr P G H T l e1 e2 (by simpa [Head.vars, Head.terms, litVars] using hv)
+  | disj elems =>
+    simp only [Head.vars, Head.terms] at hv
+    have key : ∀ ea eb : Env, (∀ v ∈ (elems.flatMap condLitTerms).flatMap Term.vars, ea v = eb v) →
+        stdHeadSat P G ea H T (.disj elems) → stdHeadSat P G eb H T (.disj elems) := by
+      intro ea eb hab
+      simp only [stdHeadSat]
+      rintro ⟨c, hc, e', ha, h1, h2⟩
+      let vs := (condLitTerms c).flatMap Term.vars
+      have hsub : ∀ v ∈ vs, ea v = eb v := by
+        intro v hvv
+        obtain ⟨t, ht, hvt⟩ := List.mem_flatMap.mp hvv
+        exact hab v (List.mem_flatMap.mpr ⟨t, List.mem_flatMap.mpr ⟨c, hc, ht⟩, hvt⟩)
+      refine ⟨c, hc, patch vs e' eb, patch_agree G vs ea eb e' hsub ha, ?_, ?_⟩
+      · exact (litsSat_congr P G H T c.2 e' _ (fun v hv' => patch_eq vs e' eb v (by
+          simp only [vs, condLitTerms, List.flatMap_append, List.mem_append]; exact Or.inr hv'))).mp h1
+      · exact (litSat_congr P G H T c.1 e' _ (fun v hv' => patch_eq vs e' eb v (by
+          simp only [vs, condLitTerms, List.flatMap_append, List.mem_append]; exact Or.inl (by simpa [litVars] using hv')))).mp h2
+    exact ⟨key e1 e2 hv, key e2 e1 (fun v hv' => (hv v hv').symm)⟩
+  | agg lg elems rg =>
+    simp only [Head.vars, Head.terms, List.flatMap_append, List.mem_append] at hv
+    have hl := guardVal_congr P e1 e2 lg (fun v hv' => hv v (Or.inl (Or.inl hv')))
+    have hr := guardVal_congr P e1 e2 rg (fun v hv' => hv v (Or.inr hv'))
+    have hc : ∀ W, cCount P G e1 W W elems = cCount P G e2 W W elems := by
+      intro W; funext k
+      exact propext (cCount_congr P G W W elems e1 e2 (fun v hv' => hv v (Or.inl (Or.inr (by rwa [cElemsTerms_eq] at hv')))) k)
+    simp only [stdHeadSat, hl, hr, hc H, hc T]
+    rw [choiceOk_congr P G H T elems e1 e2 (fun v hv' => hv v (Or.inl (Or.inr hv')))]
+  | hagg lg f elems rg =>
+    simp only [Head.vars, Head.terms, List.flatMap_append, List.mem_append] at hv
+    have hl := guardVal_congr P e1 e2 lg (fun v hv' => hv v (Or.inl (Or.inl hv')))
+    have hr := guardVal_congr P e1 e2 rg (fun v hv' => hv v (Or.inr hv'))
+    have hc : ∀ W, bTuples P G e1 W W (haggTuples elems) = bTuples P G e2 W W (haggTuples elems) := by
+      intro W; funext k
+      exact propext (bTuples_congr P G W W _ e1 e2 (fun v hv' => hv v (Or.inl (Or.inr (by rwa [haggTuples_terms] at hv')))) k)
+    simp only [stdHeadSat, hl, hr, hc H, hc T]
+    rw [choiceOk_congr P G H T (elems.map (·.2)) e1 e2 (fun v hv' => hv v (Or.inl (Or.inr (by
+      obtain ⟨t, ht, hvt⟩ := List.mem_flatMap.mp hv'
+      obtain ⟨c, hc', htc⟩ := List.mem_flatMap.mp ht
+      obtain ⟨x, hx, rfl⟩ := List.mem_map.mp hc'
+      exact List.mem_flatMap.mpr ⟨t, List.mem_flatMap.mpr ⟨x, hx, List.mem_append_right _ htc⟩, hvt⟩))))]
   | theory t => simp only [stdHeadSat]
 
 /-- the head's global variables: those of a plain literal; elements are local -/
